@@ -33,7 +33,7 @@ pub fn group_states() -> Vec<GroupState> {
     v
 }
 
-pub const KINDS: [&str; 7] = ["str", "interp", "range", "plural", "empty", "fkempty", "fkto"];
+pub const KINDS: [&str; 9] = ["str", "interp", "range", "plural", "empty", "fkempty", "fkmid", "fkto", "fktop"];
 
 fn value_of_kind(kind: &str, tag: &str, is_default: bool) -> Vec<(String, Val)> {
     // returns the entries to add for key base name "K" (plural adds two)
@@ -41,7 +41,10 @@ fn value_of_kind(kind: &str, tag: &str, is_default: bool) -> Vec<(String, Val)> 
         // values that are defined but render as nothing: the empty string, and a string made only of a
         // reference to an empty string (the default locale keeps a visible text so that a wrong fallback shows)
         "empty" => vec![("K".into(), if is_default { st(&format!("[{tag}]")) } else { st("") })],
-        "fkto" => unreachable!(),
+        "fkto" | "fktop" => unreachable!(),
+        // a value that itself holds a reference (to `uall`, which every locale writes with its own text): a
+        // reference resolved on behalf of another locale must not leave that locale's text here
+        "fkmid" => vec![("K".into(), s(vec![text(&format!("[{tag}]")), fk("uall")]))],
         "fkempty" => vec![("K".into(), if is_default { s(vec![text(&format!("[{tag}]")), fk("emp")]) } else { s(vec![fk("emp")]) })],
         "str" => vec![("K".into(), st(&format!("[{tag}]")))],
         "interp" => vec![("K".into(), s(vec![text(&format!("[{tag}]")), var("x"), comp("b", vec![var("y")])]))],
@@ -77,6 +80,14 @@ pub fn build_project(locales: &[&str], inherits: &[(String, String)]) -> (Projec
             n_keys += 1;
             for (li, loc) in locales.iter().enumerate() {
                 let pres = if li == 0 { Presence::Defined } else { PRES[pat[li - 1]] };
+                if kind == "fktop" {
+                    // a key reading `fkmid<pi>` - a value that holds a reference of its own - written wherever the
+                    // target is written or null
+                    if pres != Presence::Absent {
+                        files[li].push((name.clone(), s(vec![text(&format!("[{loc}.{name}]")), fk(&format!("fkmid{pi}"))])));
+                    }
+                    continue;
+                }
                 if kind == "fkto" {
                     // a key reading `str<pi>` (same presence pattern) through a reference, written wherever the
                     // target is written or null (a target absent from the file cannot be referenced)
@@ -136,6 +147,11 @@ pub fn build_project(locales: &[&str], inherits: &[(String, String)]) -> (Projec
     // the empty string every locale defines (target of the "fkempty" keys)
     for f in files.iter_mut() {
         f.push(("emp".into(), st("")));
+    }
+    n_keys += 1;
+    // .. and the text every locale writes in its own words (target of the "fkmid" values)
+    for (li, loc) in locales.iter().enumerate() {
+        files[li].push(("uall".into(), st(&format!("[{loc}.uall]"))));
     }
     n_keys += 1;
     let mut p = Project::new(cfg);
